@@ -18,8 +18,13 @@ Models, for rules with `MetricType == Concurrency`:
   (a flow rule) never reaches the hotspot slot; a blocked entry runs neither `OnEntryPassed` nor
   `OnCompleted`; the entry's arguments are copied into its own context (repaired tree, commit 3ae3ba7).
 
-QPS rules are carried as inert controllers (the harness loads them with a threshold that never blocks);
-their behaviour is property C05.
+QPS rules are carried as inert controllers (`conc := false`): the harness loads them only with parameters under which
+they never block — a Reject rule with 10^9 tokens per second, and a Throttling rule with one token per second and
+`MaxQueueingTimeMs = 10^9`, which *queues* every request that follows the previous one for the value within `batch`
+seconds (the slot sleeps on the virtual clock and goes on with the next rule) — for batch counts ≤ 5; their behaviour is
+property C05 (`Sentinel.Model.Hot`).  That they are inert, wherever they stand among the concurrency rules of a resource,
+is checked by the correspondence run on every generated case.  `BatchCount` is not a parameter of the model: no modelled
+step reads it (a cell moves by exactly one unit per admitted entry whatever the batch).
 -/
 namespace Sentinel.HotConc
 
